@@ -1,4 +1,5 @@
 import FV.Proofs.Glb
+import FV.Proofs.GlbAlloc
 /-
   C10 — Global floorplanning returns a feasible allocation and rigid hard modules.
 
@@ -18,6 +19,8 @@ import FV.Proofs.Glb
   | `extract_hard_rigid`                      |                                                                  |
   | `glbLoop_invariant`, `glbfloor_feasible`, | nothing (the solver is an arbitrary partial function)            |
   | `glbfloor_returns_extracted`              |                                                                  |
+  | `glbfloorA_*` (loop with the allocation    | nothing; `refine` / `must_be_refined` / the constructor are the   |
+  |  model of C02/C12 plugged in)              | allocation model's, no hypothesis about them is left              |
 
   All statements are over an arbitrary linearly ordered field (exact arithmetic); `Rat`, at which the driver runs
   the same definitions, is one.  IEEE rounding is executed (F stream of the harness), never proved.
@@ -381,6 +384,110 @@ theorem glbfloor_feasible (solve : State α → Option (Answer α)) (mustRefine 
   obtain ⟨al, ms⟩ := r
   exact extract_cells_feasible ans εA thr s.2 _ al ms hr R Q hs.1 hs.2
 
+/-! ### the loop with the allocation model plugged in (no hypothesis about `refine` left)
+
+`FV/Model/GlbAlloc.lean` instantiates the loop with `refine := Allocation.refine(threshold)` (`FV.refine env st a thr 1`,
+`levels` defaults to 1 as in `optimization.py`), `must_be_refined := FV.mustBeRefined a thr` and the real constructor
+`Allocation(allocation_list)` (`FV.mkAllocation`) inside `extract_solution` — the model of
+`frame/allocation/allocation.py` of properties C02/C12 (code with their repairs applied).  The only parameter left is the
+solver.  Start: any `ValidAlloc` (what the constructor returns, `FV.C02.constructor_valid`) whose cells lie inside the
+die. -/
+
+/-- the adapter between `Glb.RectAlloc` and the allocation model's `Cell` is a bijection (both round trips). -/
+theorem adapter_roundtrip (ra : RectAlloc α) (c : Cell α) : ofCell (toCell ra) = ra ∧ toCell (ofCell c) = c :=
+  ⟨rfl, rfl⟩
+
+/-- pairwise overlap at most `ε` and inside the die, for the rectangles offered / returned in a loop state. -/
+def CellsFeasible (die : Rect α) (ε : α) (s : AState α) : Prop :=
+  s.cells.Pairwise (fun a b => a.areaOverlap b ≤ ε) ∧ ∀ r ∈ s.cells, r.isInside die = true
+
+theorem feasible_cells {die : Rect α} {ε : α} {st : Eps α} {s : AState α} (h : Feasible die ε st s) :
+    CellsFeasible die ε s := by
+  refine ⟨?_, ?_⟩
+  · unfold AState.cells; rw [List.pairwise_map]; exact h.sep
+  · intro r hr
+    obtain ⟨c, hc, rfl⟩ := List.mem_map.mp hr
+    exact h.inside c hc
+
+/-- in a feasible state `allocation.refine(threshold)` never raises (and `extract_solution`'s constructor can only
+    refuse for reasons of the answer: an empty list, a ratio outside `[0,1]`). -/
+theorem glbfloorA_refine_total (env : Env α) (thr ε : α) (die : Rect α) (s : AState α) (hε : 0 ≤ ε)
+    (hs : Feasible die ε s.eps s) : ∃ r, refineA env thr s = some r ∧ Feasible die ε s.eps r := by
+  obtain ⟨r, h1, h2, _⟩ := refineA_spec env thr ε die s.eps s hε hs
+  exact ⟨r, h1, h2⟩
+
+/-- **every allocation the loop offers to the solver is feasible** (valid `Allocation` object, cells inside the die,
+    pairwise overlap ≤ ε), for every solver. -/
+theorem glbfloorA_offered_feasible (env : Env α) (solve : AState α → Option (Answer α)) (thr ε : α) (die : Rect α)
+    (init o : AState α) (hε : 0 ≤ ε) (h0 : Feasible die ε init.eps init)
+    (ho : Offered (optimizeA env solve thr) (mustRefineA thr) (refineA env thr) init o) : Feasible die ε init.eps o :=
+  ho.inv (Feasible die ε init.eps) h0
+    (fun s r hs hr => refineA_feasible env thr ε die init.eps s r hε hs hr)
+    (fun s r hs hr => optimizeA_feasible env solve thr ε die init.eps s r hs hr)
+
+/-- **… and so is the one `glbfloor` returns.** -/
+theorem glbfloorA_returned_feasible (env : Env α) (solve : AState α → Option (Answer α)) (thr ε : α) (die : Rect α)
+    (maxIter : Option Nat) (fuel : Nat) (init r : AState α) (hε : 0 ≤ ε) (h0 : Feasible die ε init.eps init)
+    (h : glbfloorA env solve thr maxIter fuel init = some r) : Feasible die ε init.eps r :=
+  loopG_invariant _ _ _ maxIter (Feasible die ε init.eps)
+    (fun s r hs hr => refineA_feasible env thr ε die init.eps s r hε hs hr)
+    (fun s r hs hr => optimizeA_feasible env solve thr ε die init.eps s r hs hr) fuel 1 init r h0 h
+
+/-- With at least one pass allowed, what `glbfloor` returns is `extract_solution` — the model `Glb.extractSolution`
+    of the theorems above, with area tolerance `st.area` — applied to the solver's answer on a feasible offered
+    allocation; so `extract_ratios`, `fixed_kept`, `extract_hard_rigid` speak about the returned value. -/
+theorem glbfloorA_returns_extracted (env : Env α) (solve : AState α → Option (Answer α)) (thr ε : α) (die : Rect α)
+    (maxIter : Option Nat) (fuel : Nat) (init r : AState α) (hε : 0 ≤ ε) (h0 : Feasible die ε init.eps init)
+    (hlim : maxIter ≠ some 0) (h : glbfloorA env solve thr maxIter fuel init = some r) :
+    ∃ (o : AState α) (ans : Answer α),
+      Offered (optimizeA env solve thr) (mustRefineA thr) (refineA env thr) init o ∧ Feasible die ε init.eps o ∧
+      solve o = some ans ∧
+      extractSolution ans init.eps.area thr o.mods o.cells = .ok (r.alloc.cells.map ofCell, r.mods) := by
+  have hl : withinLimit maxIter 1 = true := by
+    cases maxIter with
+    | none => rfl
+    | some k =>
+      have : k ≠ 0 := fun hk => hlim (by rw [hk])
+      simp only [withinLimit, decide_eq_true_eq]; omega
+  obtain ⟨o, hoff, ho⟩ := loopG_first _ _ _ maxIter fuel init r hl h
+  have hfo := glbfloorA_offered_feasible env solve thr ε die init o hε h0 hoff
+  unfold optimizeA at ho
+  cases hsol : solve o with
+  | none => rw [hsol] at ho; cases ho
+  | some ans =>
+    rw [hsol] at ho
+    exact ⟨o, ans, hoff, hfo, hsol, (extractA_spec env ans thr ε die init.eps o r hfo ho).2.2⟩
+
+/-- **C10, cells clause, with nothing assumed but the start and the solver parameter.**  Start from any valid
+    allocation (`ValidAlloc`: what `Allocation.__init__` accepts, in particular pairwise overlap within the area
+    tolerance `εA = init.eps.area`) whose cells lie inside the die.  Then every allocation offered to the solver and
+    the allocation `glbfloor` returns have pairwise overlap `≤ εA` and lie inside the die — for every solver, every
+    threshold, every iteration limit. -/
+theorem glbfloorA_cells_feasible (env : Env α) (solve : AState α → Option (Answer α)) (thr : α) (die : Rect α)
+    (maxIter : Option Nat) (fuel : Nat) (init : AState α) (hv : ValidAlloc init.eps init.alloc)
+    (hin : ∀ c ∈ init.alloc.cells, c.rect.isInside die = true) :
+    (∀ o, Offered (optimizeA env solve thr) (mustRefineA thr) (refineA env thr) init o →
+        CellsFeasible die init.eps.area o ∧ ValidAlloc init.eps o.alloc) ∧
+    (∀ r, glbfloorA env solve thr maxIter fuel init = some r →
+        CellsFeasible die init.eps.area r ∧ ValidAlloc init.eps r.alloc) := by
+  have h0 : Feasible die init.eps.area init.eps init := ⟨rfl, hv, hin, hv.cells.noOverlap⟩
+  refine ⟨fun o ho => ?_, fun r hr => ?_⟩
+  · have := glbfloorA_offered_feasible env solve thr _ die init o hv.epsArea h0 ho
+    exact ⟨feasible_cells this, this.valid⟩
+  · have := glbfloorA_returned_feasible env solve thr _ die maxIter fuel init r hv.epsArea h0 hr
+    exact ⟨feasible_cells this, this.valid⟩
+
+/-- … and if the start cells do not overlap at all (an exact tiling, C01), neither do the offered / returned ones. -/
+theorem glbfloorA_cells_disjoint (env : Env α) (solve : AState α → Option (Answer α)) (thr : α) (die : Rect α)
+    (maxIter : Option Nat) (fuel : Nat) (init : AState α) (hv : ValidAlloc init.eps init.alloc)
+    (hin : ∀ c ∈ init.alloc.cells, c.rect.isInside die = true)
+    (h0 : init.alloc.cells.Pairwise (fun c d => c.rect.areaOverlap d.rect ≤ 0)) :
+    (∀ o, Offered (optimizeA env solve thr) (mustRefineA thr) (refineA env thr) init o → CellsFeasible die 0 o) ∧
+    (∀ r, glbfloorA env solve thr maxIter fuel init = some r → CellsFeasible die 0 r) := by
+  have hf : Feasible die 0 init.eps init := ⟨rfl, hv, hin, h0⟩
+  exact ⟨fun o ho => feasible_cells (glbfloorA_offered_feasible env solve thr 0 die init o (le_refl _) hf ho),
+    fun r hr => feasible_cells (glbfloorA_returned_feasible env solve thr 0 die maxIter fuel init r (le_refl _) hf hr)⟩
+
 /-! ### non-vacuity: concrete instances meet the hypotheses -/
 
 section Examples
@@ -427,6 +534,17 @@ example : (updateModule exAns exH).map (fun m => m.rects.map fun r => (r.cx, r.c
 
 /-- `recenter` fails (ZeroDivisionError) exactly on zero total area: e.g. no rectangles. -/
 example : (recenter (1 : ℚ) 1 []).isSome = false := by decide +kernel
+
+/-- the loop with the allocation model plugged in runs on a concrete instance: a 4x2 die of two cells accepted by the
+    constructor (hence `ValidAlloc`, `FV.C02.constructor_valid`), the answer `exAns` at every pass, `max_iter = 2`. -/
+def exEnvA : Env ℚ := ⟨1 / 1000000000000, 1 / 100, fun _ => 1 / 1000⟩
+def exRawA : List (RawCell ℚ) :=
+  [⟨.obj ⟨1, 1, 2, 2, "_", false, false, .nopoly⟩, [("S", 1/2)], 0⟩,
+   ⟨.obj ⟨3, 1, 2, 2, "_", true, false, .nopoly⟩, [("F", 1)], 0⟩]
+
+example : (match mkAllocation exEnvA ⟨1/1000000, 1/1000⟩ exRawA with
+    | .ok (a, st) => (glbfloorA exEnvA (fun _ => some exAns) (9/10) (some 2) 5 ⟨a, st, exMods⟩).isSome
+    | .error _ => false) = true := by decide +kernel
 
 end Examples
 
